@@ -102,6 +102,8 @@ structure Disp (γ : Type) where
   textPendingStart : Nat := 0       -- pending_source_location_bytes_start
   encoding : Nat := 0
   nextEncoding : Option Nat := none
+  /-- ghost: how many times `run_bail_out_handlers` ran -/
+  bailOutRuns : Nat := 0
   deriving Repr, Inhabited
 
 variable {γ : Type}
@@ -155,16 +157,16 @@ def Disp.noteNextEncoding (d : Disp γ) : Option Nat → Disp γ
   | some e => if d.nextEncoding.isNone then { d with nextEncoding := some e } else d
   | none => d
 
+/-- serialised token bytes reach the sink only while emission is enabled (dispatcher.rs:137) -/
+def Disp.pushChunks (d : Disp γ) (cs : List Bytes) : Disp γ :=
+  if d.emissionEnabled then { d with sink := d.sink ++ cs.map .chunk } else d
+
 /-- `token_produced` / `text_token_produced` (dispatcher.rs:132-167) -/
 def Disp.tokenProduced (ctl : Controller γ) (d : Disp γ) (t : Token) : DRes γ Unit :=
-  let r := ctl.token d.ctl t
-  let d := { d with ctl := r.1 }
-  match r.2 with
-  | .error e => (d, .error e)
+  match (ctl.token d.ctl t).2 with
+  | .error e => ({ d with ctl := (ctl.token d.ctl t).1 }, .error e)
   | .ok out =>
-    let d := d.noteNextEncoding out.nextEncoding
-    if d.emissionEnabled then ({ d with sink := d.sink ++ out.chunks.map .chunk }, .ok ())
-    else (d, .ok ())
+    ((({ d with ctl := (ctl.token d.ctl t).1 }).noteNextEncoding out.nextEncoding).pushChunks out.chunks, .ok ())
 
 /-- `flush_encoding_change` (dispatcher.rs:207) -/
 def Disp.flushEncodingChange (d : Disp γ) : Disp γ :=
@@ -357,7 +359,7 @@ def dispOps (ctl : Controller γ) : SinkOps (Disp γ) :=
 /-- `run_bail_out_handlers` (dispatcher.rs:372) -/
 def Disp.runBailOut (ctl : Controller γ) (d : Disp γ) (e : Err) : Disp γ :=
   let r := ctl.bailOut d.ctl e
-  { d with ctl := r.1, sink := d.sink ++ r.2.map .chunk }
+  { d with ctl := r.1, sink := d.sink ++ r.2.map .chunk, bailOutRuns := d.bailOutRuns + 1 }
 
 /-- `finish` (dispatcher.rs:98): flush, `handle_end`, then the zero-length chunk. -/
 def Disp.finish (ctl : Controller γ) (d : Disp γ) (input : Bytes) : DRes γ Unit :=
